@@ -461,7 +461,7 @@ pub fn next_inplace(num_vars: usize, table: &mut [u64]) -> bool {
     debug_assert_eq!(table.len(), table_size(num_vars));
     let mask = num_vars_mask(num_vars);
     for t in table {
-        *t = (*t + 1) & mask;
+        *t = t.wrapping_add(1) & mask;
         if *t != 0 {
             return true;
         }
